@@ -579,10 +579,18 @@ func (c *Conv) addBias(out, bias tensor.Tensor) (tensor.Tensor, error) {
 
 	biasShape[1] = bias.Shape()[0]
 
-	err := bias.Reshape(biasShape...)
+	// Reshape a copy, the bias itself may be a weight of the model or a tensor of the caller.
+	reshapedBias, ok := bias.Clone().(tensor.Tensor)
+	if !ok {
+		return nil, ops.ErrTypeAssert("tensor.Tensor", bias.Clone())
+	}
+
+	err := reshapedBias.Reshape(biasShape...)
 	if err != nil {
 		return nil, err
 	}
+
+	bias = reshapedBias
 
 	out, bias, err = ops.UnidirectionalBroadcast(out, bias)
 	if err != nil {
